@@ -1,8 +1,9 @@
 import PprofVerif.Lemmas.LegacyFinish
+import PprofVerif.Lemmas.LegacyJavaCpu
 import PprofVerif.Model.Legacy
 /-!
-Helper lemmas for C14: the dispatch of `parseLegacy` / `ParseData` for binary CPU and heap
-documents (the other formats' dispatch is tied by the correspondence check).
+Helper lemmas for C14: the dispatch of `parseLegacy` / `ParseData` for binary CPU (both flavours)
+and heap documents; the text formats tried later in the chain are in `LegacyChain`.
 -/
 namespace PV.Legacy
 open PV
@@ -69,7 +70,11 @@ theorem cpuHeaderWords_text (big w64 : Bool) (c : UInt8) (t : Str) (hc : c ≠ 0
             simp [hn1]
 
 theorem parseCPU_text (c : UInt8) (t : Str) (hc : c ≠ 0) : parseCPU (c :: t) = .err "unrecognized" := by
-  simp [parseCPU, cpuHeaderWords_text _ _ c t hc]
+  simp [parseCPU, parseCPUWith, cpuHeaderWords_text _ _ c t hc]
+
+theorem parseLegacy_printJavaCpu (scale : ScaleFn) (cyc : CycFn) (d : JavaCpuDoc) (h : d.wf = true) :
+    parseLegacy scale cyc (printJavaCpu d) = .ok (expectedJavaCpu d) := by
+  simp [parseLegacy, parseCPU_printJavaCpu d h]
 
 theorem parseLegacy_printHeap (scale : ScaleFn) (cyc : CycFn) (d : HeapDoc) (h : d.wf = true) :
     parseLegacy scale cyc (printHeap d) = .ok (expectedHeap scale d) := by
@@ -82,12 +87,11 @@ theorem parseLegacy_printHeap (scale : ScaleFn) (cyc : CycFn) (d : HeapDoc) (h :
     exact parseCPU_text 104 _ (by decide)
   simp [parseLegacy, hcpu, parseHeap_printHeap scale d h]
 
-theorem parseData_of_pb_fails (pb : Str → Outcome Profile) (scale : ScaleFn) (cyc : CycFn) (b : Str)
-    (h : ∀ p, pb b ≠ .ok p) : parseData pb scale cyc b = parseLegacy scale cyc b := by
+theorem parseData_of_pb_rejects (pb : Str → Outcome Profile) (scale : ScaleFn) (cyc : CycFn) (b : Str)
+    (h : PbRejects (pb b)) : parseData pb scale cyc b = parseLegacy scale cyc b := by
+  obtain ⟨e, he, h1, h2⟩ := h
   unfold parseData
-  cases hq : pb b with
-  | ok p => exact absurd hq (h p)
-  | err e => rfl
-  | panic e => rfl
+  rw [he]
+  simp [h1, h2]
 
 end PV.Legacy
